@@ -29,7 +29,7 @@ from hsverif.c14_oracle import (
     classify_read,
     writes_by_key,
 )
-from hsverif.c14_txn import gen_txn, run_txn
+from hsverif.c14_txn import gen_txn, gen_txn_long, run_txn
 from hsverif.core import Family, Result, ddmin
 
 PID = "C14"
@@ -44,7 +44,10 @@ RULE = (
     "thresholds 1-3, WAL on or off), BTree (order 3-5) and KVStore (no capacity); one-client programs mixing the "
     "generator API with put_sync/get_sync/delete_sync are compared with a dict exactly; transaction programs (2-5 "
     "clients x 1-3 transactions of 1-4 reads/writes over 2-4 keys, all three isolation levels) run through "
-    "TransactionManager.  Non-trivial: LSM history with >=1 read whose interval overlaps a flush or compaction "
+    "TransactionManager; family txn_long: one or two long-lived SERIALIZABLE / SNAPSHOT_ISOLATION transactions over "
+    "KVStore stay open while 3-4200 short READ_COMMITTED blind writers commit, the one conflicting short transaction "
+    "commits early in that window (blind writers to keys no judged transaction reads are left out of the serial-order "
+    "search).  Non-trivial: LSM history with >=1 read whose interval overlaps a flush or compaction "
     "window (located from the public stats counters) and >=1 delete completed before a later compaction finished; "
     "BTree history with >=1 read overlapping a node split and >=1 delete; KVStore history with >=1 read "
     "overlapping a write to the same key; sequential program with >=1 overwrite and >=1 delete (LSM: also >=1 "
@@ -65,7 +68,7 @@ ASSUMPTIONS = [
     "transactions' reads must be explained; snapshot isolation: the reads of a committed SI transaction (other "
     "than reads of its own writes) must equal one of the committed states S_0..S_n, any n",
 ]
-MUST_OBSERVE = ["reads_checked", "scans_checked", "txn_serial_checks", "txn_si_checks"]
+MUST_OBSERVE = ["reads_checked", "scans_checked", "txn_serial_checks", "txn_si_checks", "txns_open_across_1024_or_more_commits"]
 
 
 # --------------------------------------------------------------------------
@@ -440,13 +443,14 @@ FAMILIES = {
     "kv": Family("kv", gen_concurrent("kv"), run_concurrent, shrink=shrink_ops),
     "sequential": Family("sequential", gen_sequential, run_sequential, shrink=shrink_ops),
     "txn": Family("txn", gen_txn, run_txn),
+    "txn_long": Family("txn_long", gen_txn_long, run_txn),
 }
 # cases cost 1-5 ms but a fresh worker pays ~3 s to import the library: few, large shards
 for _f in FAMILIES.values():
     _f.shard_size = 150
 
 BUDGET = {
-    "quick": {"lsm_size_tiered": 300, "lsm_leveled": 300, "lsm_fifo": 200, "lsm_big": 200, "btree": 250, "kv": 150, "sequential": 300, "txn": 600},
+    "quick": {"lsm_size_tiered": 300, "lsm_leveled": 300, "lsm_fifo": 200, "lsm_big": 200, "btree": 250, "kv": 150, "sequential": 300, "txn": 600, "txn_long": 24},
     "thorough": {
         "lsm_size_tiered": 12000,
         "lsm_leveled": 12000,
@@ -456,5 +460,6 @@ BUDGET = {
         "kv": 4000,
         "sequential": 10000,
         "txn": 30000,
+        "txn_long": 600,
     },
 }
